@@ -5,7 +5,7 @@ from pyvc import gb
 from pyvc.arrays import Dtype, ZArr, sym_array
 from pyvc.interp import IObj, Opaque
 from pyvc.spec import FuncSpec, register
-from pyvc.sym import PyExc
+from pyvc.sym import PyExc, tz
 
 OPS = "cubed.core.ops"
 
@@ -246,4 +246,129 @@ y = xp.add(x, x)                      # built before the store, shares x's plan 
 cubed.to_zarr(x, d + "/out.zarr")
 got = y.compute()
 reproduced, detail = (not np.array_equal(got, -2 * a)), f"y = x + x computed after to_zarr(x): {got.tolist()} expected {(-2 * a).tolist()}"
+"""
+
+
+@register
+class StoreArrayRegion(FuncSpec):
+    """_store_array(source, target, region): region store into an existing array.
+    requires  nothing beyond the type invariants (any region of slices, any source chunking)
+    ensures   a region that is not aligned with the target's chunks, or whose shape differs from the source's, is
+              rejected with ValueError before anything is built; otherwise, through the universal contract with the
+              explicit task list: the listed blocks are exactly target blocks inside the grid, their number equals the
+              advertised num_tasks (GB.tasks), every task reads an in-range source block (GB.keys) whose shape is the
+              region of the target block it writes (GB.shape) and whose elements are source[idx - region.start]
+              (GB.origin); tasks write whole storage chunks (GB.align)."""
+
+    target = f"{OPS}:_store_array"
+    name = f"{OPS}:_store_array[region]"
+    props = ("C11", "C13", "C05", "C17")
+
+    def configs(self, tier):
+        # the input space is split exhaustively in two:
+        #   "rejected": regions that are misaligned with the target chunks or whose shape differs from the source's
+        #               (start/stop free) — only the refusal clause is at stake;
+        #   "accepted": aligned regions with the source's shape, *parametrised* by block numbers (start = f*tc and
+        #               stop = l*tc or the array end; every aligned region has this form), which keeps the arithmetic
+        #               free of mod terms.
+        out = [dict(ndim=1, dom="rejected"), dict(ndim=1, dom="accepted", end="boundary"), dict(ndim=1, dom="accepted", end="array-end")]
+        if tier != "quick":
+            out += [dict(ndim=2, dom="rejected"), dict(ndim=2, dom="accepted", end="boundary"), dict(ndim=2, dom="accepted", end="array-end")]
+        return out
+
+    def install(self, c):
+        gb.install(c)
+
+    def setup(self, c):
+        nd = c.cfg["ndim"]
+        tgt = target_zarr(c, "t", nd)
+        if c.cfg["dom"] == "rejected":
+            x = sym_array(c, "x", nd, kind="zarr")
+            region = tuple(slice(c.int(f"r{i}_start", lo=0), c.int(f"r{i}_stop", lo=0)) for i in range(nd))
+            for sl, n in zip(region, tgt.shape):
+                c.assume(sl.start <= sl.stop)
+                c.assume(sl.stop <= n)
+            ok = c.And(*[c.And(sl.start % cs == 0, c.Or(sl.stop % cs == 0, sl.stop == n), sl.stop - sl.start == xn)
+                         for sl, cs, n, xn in zip(region, tgt.chunks, tgt.shape, x.shape)])
+            c.assume(c.Not(ok))
+        else:
+            region = []
+            fixed = {}
+            for i in range(nd):
+                f = c.int(f"r{i}_first_block", lo=0)
+                start = f * tgt.chunks[i]
+                if c.cfg["end"] == "boundary":
+                    l_ = c.int(f"r{i}_end_block", lo=1)
+                    stop = l_ * tgt.chunks[i]
+                    c.assume(f < l_)
+                else:
+                    stop = tgt.shape[i]
+                c.assume(start < stop)
+                c.assume(stop <= tgt.shape[i])
+                c.ctx.symvars[f"r{i}_start"] = tz(start)
+                c.ctx.symvars[f"r{i}_stop"] = tz(stop)
+                region.append(slice(start, stop))
+                fixed[i] = stop - start
+            region = tuple(region)
+            x = sym_array(c, "x", nd, kind="zarr", fixed=fixed)
+        c.expect_origin = lambda j, g: ("array-x", tuple(gi - sl.start for gi, sl in zip(g, region)))
+        c.v = (x, tgt, region)
+        return (x, tgt), dict(region=region)
+
+    def ensures(self, c, a, k, res):
+        x, tgt, region = c.v
+        yield "accepted-region-has-the-source's-shape", c.And(*[sl.stop - sl.start == n for sl, n in zip(region, x.shape)])
+        yield "accepted-region-starts-on-a-target-chunk-boundary", c.And(*[sl.start % cs == 0 for sl, cs in zip(region, tgt.chunks)])
+        yield "accepted-region-ends-on-a-boundary-or-the-array-end", c.And(*[c.Or(sl.stop % cs == 0, sl.stop == n) for sl, cs, n in zip(region, tgt.chunks, tgt.shape)])
+        yield "result-is-bound-to-the-target", res._zarray is tgt
+
+    def raises(self, c, a, k, e):
+        x, tgt, region = c.v
+        if e.etype is ValueError:
+            bad_align = c.Or(*[c.Or(sl.start % cs != 0, c.And(sl.stop % cs != 0, sl.stop != n)) for sl, cs, n in zip(region, tgt.chunks, tgt.shape)])
+            bad_shape = c.Or(*[sl.stop - sl.start != n for sl, n in zip(region, x.shape)])
+            return c.Or(bad_align, bad_shape)
+        return None
+
+    def replay(self, cfg, model, ob):
+        nd = cfg["ndim"]
+        g = lambda n, d=1: model.get(n, d)
+        ts = tuple(g(f"t_n{i}") for i in range(nd))
+        tc = tuple(min(g(f"t_c{i}"), ts[i]) for i in range(nd))
+        reg = tuple((g(f"r{i}_start", 0), g(f"r{i}_stop", 0)) for i in range(nd))
+        xs = tuple(model.get(f"x_n{i}", max(reg[i][1] - reg[i][0], 1)) for i in range(nd))
+        xc = tuple(min(g(f"x_c{i}"), xs[i]) for i in range(nd))
+        return f"""
+import tempfile, numpy as np, zarr, cubed, cubed.array_api as xp
+from cubed.runtime.types import Callback
+d = tempfile.mkdtemp(prefix="pyvc-replay-")
+spec = cubed.Spec(work_dir=d, allowed_mem=2_000_000_000)
+a = np.arange(1, 1 + int(np.prod({xs!r})), dtype="int64").reshape({xs!r})
+x = xp.negative(xp.negative(xp.asarray(a, chunks={xc!r}, spec=spec)))
+x.compute()
+t = zarr.create_array(store=d + "/target.zarr", shape={ts!r}, dtype="int64", chunks={tc!r}, fill_value=-7)
+region = tuple(slice(s, e) for s, e in {reg!r})
+class Count(Callback):
+    def __init__(self): self.n = {{}}
+    def on_task_end(self, ev): self.n[ev.name] = self.n.get(ev.name, 0) + 1
+cb = Count()
+try:
+    arr = cubed.store(x, t, regions=region, compute=False)[0]
+    fp = arr.plan()
+    adv = {{n: dd["primitive_op"].num_tasks for n, dd in fp.dag.nodes(data=True) if "primitive_op" in dd}}
+    arr.compute(callbacks=[cb])
+    got = t[...]
+    want = np.full({ts!r}, -7, dtype="int64"); want[region] = a
+    wrong_counts = {{n: (adv[n], cb.n.get(n, 0)) for n in adv if adv[n] != cb.n.get(n, 0)}}
+    reproduced = (not np.array_equal(got, want)) or bool(wrong_counts)
+    detail = f"target ok={{np.array_equal(got, want)}}; advertised vs run tasks that differ: {{wrong_counts}}"
+except ValueError as e:
+    import traceback
+    tb = traceback.format_exc()
+    if "execute_dag" in tb or "apply_blockwise" in tb or "map_unordered" in tb:
+        reproduced, detail = True, f"failed after execution started: ValueError: {{e}}"
+    else:
+        reproduced, detail = False, f"declined up front: {{e}}"
+except Exception as e:
+    reproduced, detail = True, f"{{type(e).__name__}}: {{e}}"
 """
